@@ -17,7 +17,7 @@ class C15(core.Check):
                'framing (magic byte, EOF byte) tied by correspondence; ASCII format and main._convert by '
                'correspondence + round-trip oracle only (tokeniser round-trip is C17)']
     RULE = ('cipher cases: random byte strings (lengths dense at 0,1,142..144,255..287) through '
-            'converter.protect/unprotect; file cases: generated programs SAVEd as B, P, A in a real Session, '
+            'converter.protect/unprotect; file cases: generated programs SAVEd as B, P, A in a real Session on a disk mount and on a cassette image (image sizes dense at tape block boundaries k*256-1..k*256+1), '
             'file bytes compared with the model, then LOADed in a fresh Session and program memory / LIST '
             'compared (oracle). non-trivial = non-empty input; distinct by hash')
     histogram = None
@@ -30,7 +30,7 @@ class C15(core.Check):
             {'k': 'file', 'p': [[10, 'PRINT "A' + chr(26) + 'B"'], [20, 'REM ' + 'x' * 230]]},
             {'k': 'file', 'p': []},
             {'k': 'file', 'p': [[65529, 'END']]},
-        ]
+        ] + [{'k': 'file', 'p': self.pad_to_block([[10, 'A%=1234:PRINT "hello"'], [30, 'GOTO 10']], t)} for t in (255, 256, 257, 512)]
 
     def gen_cases(self, n):
         rng = self.rng
@@ -41,7 +41,11 @@ class C15(core.Check):
                 out.append({'k': 'cipher', 'b': common.rand_bytes(rng, common.rand_len(rng, 400))})
                 hist['cipher'] += 1
             else:
-                out.append({'k': 'file', 'p': [list(x) for x in progen.program(rng)]})
+                prog = [list(x) for x in progen.program(rng)]
+                if rng.random() < 0.5:
+                    prog = self.pad_to_block(prog, rng.choice([255, 256, 257, 511, 512, 513]))
+                    hist['block_boundary'] = hist.get('block_boundary', 0) + 1
+                out.append({'k': 'file', 'p': prog})
                 hist['file'] += 1
         # every (position mod 143, byte) pair: 256 strings of one repeated byte, 144 long (+ dropped EOF)
         vals = range(256) if self.tier == 'thorough' else list(range(0, 256, 16)) + [255, 26, 127, 128]
@@ -52,6 +56,21 @@ class C15(core.Check):
             hist['exhaustive_position_byte_pairs'] = 143 * 256
         self.histogram = hist
         return out
+
+    def pad_to_block(self, prog, target):
+        """append/adjust a REM line so that the saved image (program memory minus the leading NUL) has
+        exactly `target` bytes (tape block boundaries), when reachable"""
+        prog = [x for x in prog if x[0] != 65000][:6]
+        with common.new_session() as s:
+            s.execute(progen.text([tuple(x) for x in prog]))
+            base = len(s._impl.program.bytecode.getvalue()) - 1
+            # a line `65000 REM xxx` costs 4 + 2 (REM token + space) ... measure it instead of computing
+            s.execute('65000 REM ')
+            with_rem = len(s._impl.program.bytecode.getvalue()) - 1
+        pad = target - with_rem
+        if 0 <= pad <= 200:
+            prog.append([65000, 'REM ' + 'x' * pad])
+        return prog
 
     # ---- implementation
     def impl(self, case):
@@ -89,6 +108,21 @@ class C15(core.Check):
                         l2 = s2.execute('LIST') if nm != 'TP' else None
                         loaded[nm] = (bytes(s2._impl.program.bytecode.getvalue()), l2,
                                       bool(s2._impl.program.protected))
+            # cassette device: SAVE / LOAD through a CAS image (B, P and A formats), fresh session for LOAD
+            tape = os.path.join(d, 'tape.cas')
+            open(tape, 'wb').close()
+            with common.new_session(devices={'CAS1:': tape}) as s3:
+                with core.time_limit(120):
+                    s3.execute(progen.text([tuple(x) for x in case['p']]))
+                    code_c = bytes(s3._impl.program.bytecode.getvalue())
+                    s3.execute('SAVE "CAS1:PB"')
+                    s3.execute('SAVE "CAS1:PP",P')
+                    s3.execute('SAVE "CAS1:PA",A')
+            for nm in ('PB', 'PP', 'PA'):
+                with common.new_session(devices={'CAS1:': tape}) as s4:
+                    with core.time_limit(120):
+                        out4 = s4.execute('LOAD "CAS1:%s"' % nm)
+                        loaded['CAS' + nm] = (bytes(s4._impl.program.bytecode.getvalue()), out4, code_c)
             return code, listing, files, loaded
         finally:
             common.rmtree(d)
@@ -157,6 +191,12 @@ class C15(core.Check):
             c2, l2, prot = loaded[nm]
             if c2[:prog_end] != code[:prog_end]:
                 return 'program memory differs after SAVE/LOAD in format %s' % nm
+        for nm in ('CASPB', 'CASPP'):
+            c5, out5, code_c = loaded[nm]
+            pe = self.prog_end(code_c)
+            if c5[:pe] != code_c[:pe]:
+                return 'program memory differs after SAVE/LOAD on the cassette device (%s): %d bytes stored, loaded image %r...' % (
+                    nm[3:], pe, c5[:12])
         c2, l2, prot = loaded['TB']
         if l2 != listing:
             return 'LIST differs after tokenised SAVE/LOAD'
